@@ -46,6 +46,8 @@ structure TblOK (t : Tbl) : Prop where
   hashesRequired : FileId.hashes ∈ t.required
   infraRequired : FileId.infra ∈ t.required
   tsExact : t.tsExact = true
+  /-- both generation loops call `generate_emissions` alike -/
+  extendSame : t.extendSameArgs = true
   /-- every preseed is a fresh draw (the stream is not restarted) -/
   seedFresh : t.seedRestart = false
   /-- the hashed view determines every defining input -/
@@ -62,7 +64,7 @@ def Tbl.okB (t : Tbl) : Bool :=
   && t.hashedFresh.all (fun p => t.compared.contains p)
   && t.compared.all (fun p => t.hashedFresh.contains p)
   && t.required.contains .count && t.required.contains .hashes && t.required.contains .infra
-  && t.tsExact && !t.seedRestart && t.hashWholeFile && !t.vwKeysRemoved && !t.progKeysRemoved
+  && t.tsExact && t.extendSameArgs && !t.seedRestart && t.hashWholeFile && !t.vwKeysRemoved && !t.progKeysRemoved
   && decide (t.freshOps = safeIOps) && decide (t.regenOps = safeIOps)
   && decide (t.emisRegen = safePhases) && decide (t.emisExtend = safePhases)
 
@@ -72,8 +74,8 @@ theorem Input.mem_all (i : Input) : i ∈ Input.all := by
 theorem Tbl.ok_of_okB (t : Tbl) (h : t.okB = true) : TblOK t := by
   simp only [Tbl.okB, Bool.and_eq_true, decide_eq_true_eq, List.all_eq_true, List.any_eq_true,
     List.contains_iff_mem, beq_iff_eq] at h
-  obtain ⟨⟨⟨⟨⟨⟨⟨⟨⟨⟨⟨⟨⟨⟨⟨⟨h1, h2⟩, h3⟩, h4⟩, h5⟩, h6⟩, h6a⟩, h6b⟩, h6c⟩, v0⟩, v1⟩, v2⟩, v3⟩, h7⟩, h8⟩, h9⟩, h10⟩ := h
-  refine ⟨h1, h2, ?_, h4, h5, h6, h6a, h6b, h6c, by simpa using v0, ?_, h7, h8, h9, h10⟩
+  obtain ⟨⟨⟨⟨⟨⟨⟨⟨⟨⟨⟨⟨⟨⟨⟨⟨⟨h1, h2⟩, h3⟩, h4⟩, h5⟩, h6⟩, h6a⟩, h6b⟩, h6c⟩, vx⟩, v0⟩, v1⟩, v2⟩, v3⟩, h7⟩, h8⟩, h9⟩, h10⟩ := h
+  refine ⟨h1, h2, ?_, h4, h5, h6, h6a, h6b, h6c, vx, by simpa using v0, ?_, h7, h8, h9, h10⟩
   rotate_left
   · intro k a b hab
     have v2' : t.vwKeysRemoved = false := by simpa using v2
@@ -449,7 +451,7 @@ theorem mid_spec (t : Tbl) (w : Bool) (ok : TblOK t) (vv : VV) (gid n : Nat) (fo
         · rename_i g hg
           simp only [Option.some.injEq, Prod.mk.injEq] at h2
           obtain ⟨rfl, rfl, rfl⟩ := h2
-          simp only [emisStage, if_true] at h3
+          simp only [emisStage, if_true, extendGen, ok.extendSame] at h3
           split at h3
           · rename_i c hc
             simp only [Option.some.injEq] at h3
@@ -733,7 +735,7 @@ theorem plan_of_valid (t : Tbl) (w : Bool) (ok : TblOK t) (vv : VV) (g : Gen) (n
   have h2 : infraStage t vv gid false d = some ([], g, true) := by
     simp [infraStage, hpres, hh, hmatch, hg]
   have h3 : emisStage t n1 true g d = some (if c < n1 then instPhases t.emisExtend g c n1 else []) := by
-    simp [emisStage, hc]
+    simp [emisStage, hc, extendGen, ok.extendSame]
   have h4 : tsStage t vv d = some [] := by
     simp [tsStage, hts, tsReuse]
   simp only [plan, h1, h2, h3, h4, List.append_nil, true_and]
